@@ -23,3 +23,32 @@ Theorem C03_normalize_idempotent :
   forall p : str, normalize_path (normalize_path (47 :: p)) = normalize_path (47 :: p).
 Proof. exact normalize_path_idempotent_rooted. Qed.
 Print Assumptions C03_normalize_idempotent.
+
+(** parsing inverts printing: the RFC 3986 decomposition (= split_url, C07_split_is_rfc) of the
+    re-composed string gives back the five components, for every five-tuple that is safe to
+    re-parse: each component free of the delimiters that end it, the scheme a lower-case
+    RFC scheme or absent, the path empty or rooted under an authority - and outside the two
+    known-finding classes F14 (rootless path under an authority-taking scheme without
+    authority) and F15 (scheme-like first segment without scheme and authority), which are
+    refuted below with kernel-evaluated witnesses. *)
+From Yarl Require Import Model.Parse Spec.Rfc3986Split Proofs.RecomposeProofs.
+Theorem C03_parse_inverts_print : forall sc nl p q f : str,
+  reparse_safe sc nl p q f -> rfc_split (unsplit_result sc nl p q f) = (sc, nl, p, q, f).
+Proof. exact rfc_split_unsplit. Qed.
+Print Assumptions C03_parse_inverts_print.
+
+Theorem C03_f14_refuted :      (* http:foo prints as http:///foo *)
+  rfc_split (unsplit_result [104;116;116;112] [] [102;111;111] [] []) <> ([104;116;116;112], [], [102;111;111], [], []).
+Proof. vm_compute. discriminate. Qed.
+Print Assumptions C03_f14_refuted.
+Theorem C03_f15_refuted :      (* the path a:b prints as a:b and re-parses as scheme a *)
+  rfc_split (unsplit_result [] [] [97;58;98] [] []) <> ([], [], [97;58;98], [], []).
+Proof. vm_compute. discriminate. Qed.
+Print Assumptions C03_f15_refuted.
+
+(** non-vacuity: a full URL satisfies reparse_safe *)
+Example C03_reparse_example :
+  rfc_split (unsplit_result [104;116;116;112] [117;64;104;58;56] [47;97;47;98] [113;61;49] [102])
+  = ([104;116;116;112], [117;64;104;58;56], [47;97;47;98], [113;61;49], [102]).
+Proof. vm_compute. reflexivity. Qed.
+Print Assumptions C03_reparse_example.
